@@ -72,6 +72,9 @@ func genWop(c *core.Chooser) wop {
 		o.b = c.Blob(c.Size(40, 0, 1), "any")
 	case 6:
 		o.b = c.Blob(c.Size(30, 0, 1), "nonul")
+		if c.Prob(1, 40) {
+			o.b = c.Blob([]int{254, 255, 256, 257, 300, 1023, 1024, 4096}[c.Intn(8)], "nonul") // a terminator far away
+		}
 	case 8:
 		o.n = 1 + c.Size(31, 9, 15)
 		o.b = c.Blob(o.n, "any") // exactly the slot width, any octets
